@@ -350,6 +350,37 @@ def walk_sources(rng, quick):
             out.append((f"walk-defer-uncond-{n}-{'shallow-first' if first else 'plain'}",
                         f"subscription {{ {first.replace('m {', 's {')}...G1 }}\n{chain}\n"
                         "fragment F on Subscription { ... @defer { x } ... @defer(if: false) { x } }\n"))
+    # validate_defer reports the limit error of its walks once, and only if no recursion diagnostic is in the list yet
+    for n in (9, 10):
+        gchain = "\n".join(
+            f"fragment G{i} on Subscription {{ {nest('i' * 49, '...G%d' % (i + 1) if i < n else '...F')} }}"
+            for i in range(1, n + 1))
+        # only forbid_unconditional_defer gets deep: it skips the selection through which the others see F first
+        out.append((f"walk-defer-uncond-{n}-skip-hidden",
+                    f"subscription {{ s @skip(if: true) {{ ...F }} s {{ ...G1 }} }}\n{gchain}\n"
+                    "fragment F on Subscription { ... @defer { x } ... @defer(if: false) { x } }\n"))
+        mchain = "\n".join(
+            f"fragment G{i} on Mutation {{ {nest('i' * 49, '...G%d' % (i + 1) if i < n else '...F')} }}"
+            for i in range(1, n + 1))
+        witness = f"mutation M {{ m {{ ...F }} ...G1 }}\n{mchain}\nfragment F on Mutation {{ ... @defer {{ x }} }}\n"
+        # a second mutation with the same shape: still one diagnostic for the document
+        out.append((f"walk-defer-root-{n}-two-operations", witness + "mutation M2 { m { ...F } ...G1 }\n"))
+        # another operation whose deduplicating walk fails: the recursion error is in the list already
+        dchain = "\n".join(
+            f"fragment D{i} on Query {{ {nest('i' * 49, '...D%d' % (i + 1) if i < 11 else 'x')} }}"
+            for i in range(1, 12))
+        out.append((f"walk-defer-root-{n}-reported-before", f"query Q {{ ...D1 }}\n{dchain}\n" + witness))
+        out.append((f"walk-defer-root-{n}-reported-before-rev", witness + f"query Q {{ ...D1 }}\n{dchain}\n"))
+    # validate_defer_labels does not follow spreads: definitions nested around the limit, used or not
+    for total in (W - 1, W, W + 1, W + 2):
+        for via in ("i", "f", "fi"):
+            kinds = "".join(via[j % len(via)] for j in range(total))
+            deep = nest(kinds, '... @defer(label: "l") { x } ... @defer(label: "l") { x }')
+            out.append((f"walk-defer-label-unused-fragment-{via}-{total}",
+                        f"{{ x }}\nfragment U on Query {{ {deep} }}\n"))
+            out.append((f"walk-defer-label-two-unused-fragments-{via}-{total}",
+                        f"{{ x }}\nfragment U on Query {{ {deep} }}\nfragment V on Query {{ {deep} }}\n"))
+            out.append((f"walk-defer-label-operation-{via}-{total}", f"{{ {deep} }}\n"))
     # random small documents with defer / skip / include
     dirs = ["", "", " @defer", " @defer(if: false)", " @defer(if: true)", " @defer(if: $v)", " @skip(if: false)",
             " @skip(if: true)", " @include(if: true)", " @include(if: false)", " @skip(if: $v)", " @defer(label: \"l\")",
